@@ -113,6 +113,39 @@ def run(tier):
                 for draws, key in evs:
                     hist.add({"op": "newfile", "grp": grp, "explicit": 0, "draws": [B(d) for d in draws], "key": B(key), "given": [],
                               "ephs": [], "necc": 0, "key_before": [], "key_after": []})
+        # (a'') the application (or a test fixture) seeds Python's global `random` before each file: session keys and ephemeral
+        # ECC keys come from the operating system's generator and are fresh all the same
+        import random as _random
+        grp = ngroups + 1
+        ngroups += 1
+        st0 = _random.getstate()
+        try:
+            for _w in range(3):
+                _random.seed(4711)
+                pl = G.Plan(r, rcpts, ["ecc", "update"], explicit_key=False, use_default_rcpt=(_w == 2))
+                seams.take()
+                fs = Bec2File(G.gen_content(r), pl.blocks, None)
+                draws = [e["val"] for e in seams.take() if e["ev"] == "rng"]
+                hist.add({"op": "newfile", "grp": grp, "explicit": 0, "draws": [B(d) for d in draws], "key": B(fs.session_key), "given": [],
+                          "ephs": [], "necc": 0, "key_before": [], "key_after": []})
+                _random.seed(4711)
+                kb = bytes(fs.session_key)
+                seams.take()
+                fs.write_file(io.StringIO(), pl.encs_w)
+                evs = seams.take()
+                hist.add({"op": "pack", "grp": grp, "explicit": 0, "draws": [B(e["val"]) for e in evs if e["ev"] == "rng"], "key": [], "given": [],
+                          "ephs": [B(e["pub"]) for e in evs if e["ev"] == "gen"], "necc": 1, "key_before": B(kb), "key_after": B(fs.session_key)})
+        finally:
+            _random.setstate(st0)
+        # (b') ONE firmware package (with a session-key encrypted component of 64 KiB) delivered as two BEC2 files with two
+        # session keys: in each file the key the blocks wrap is the key that authenticates the directory AND encrypts the component
+        pkg = Bf3File({}, [L.mk_comp({0xC3: b"\x03", 0xC2: b"\x02"}, bytes((j * 89 + j // 253) % 256 for j in range(65536 + 16)), 65536 + 16, True)])
+        for _k in range(2):
+            pl = G.Plan(r, rcpts, ["update"], explicit_key=True)
+            fb = Bec2File(pkg, pl.blocks, pl.key)
+            tb, evb = G.rec_bec2_write(rec, seams, orc, fb, pl.meta, pl.encs_w, C.enc_specs(pl))
+            evb["_cost"] = 1500
+            B2.rec_bec2_read(rec, tb, list(pl.decs.values()), pl.ecc_privs, orc, True, auth=B2.proj_bec2(fb), _cost=800)
         # (c) spliced headers
         nspl = 0
         # key pairs: random pairs, and pairs that differ in exactly ONE byte position (every position) or one bit:
